@@ -139,3 +139,34 @@ def _(c):
     c.requires(lambda a: V.inst_ns(a.value) % 100 == 0)
     c.returns(lambda a, r: And(same_instant(r[0], a.value), r[1] == r[2], _tok_size(r[3]) == _transition_len(False, 0, a.value)))
     c.timeout_s = 60
+
+
+# ------------------------------------------------------------------------------------------ composites over the primitive contracts
+from .gens import ZoneYearOffsetG  # noqa: E402
+
+
+def yo_fields(o):
+    f = lambda n: V.fld(o, "_ZoneYearOffset__" + n)  # noqa: E731
+    return (f("transition_mode"), f("month_of_year"), f("day_of_month"), f("day_of_week"), f("advance_day_of_week"), f("add_day"), V.lt_nanos(f("time_of_day")))
+
+
+def same_year_offset(x, y):
+    a, b = yo_fields(x), yo_fields(y)
+    return And(a[0] == b[0], a[1] == b[1], a[2] == b[2], a[3] == b[3], Iff(a[4], b[4]), Iff(a[5], b[5]), a[6] == b[6])
+
+
+@contract(H + "rt_year_offset", "C14", name="_ZoneYearOffset._write / read: round trip of every field, flag byte layout mode<<5 | dow<<2 | advance<<1 | add_day")
+def _(c):
+    c.arg("yo", ZoneYearOffsetG())
+    _io(c)
+    c.setup = _tok_setup
+    c.crosscheck = 0
+
+    def post(a, r):
+        back, pos, n, tokens = r
+        toks = tokens.items if hasattr(tokens, "items") else tokens
+        m, mo, dom, dow, adv, add, tod = yo_fields(a.yo)
+        layout = toks[0][1] == m * 32 + dow * 4 + V.ite(adv, 2, 0) + V.ite(add, 1, 0) if isinstance(toks[0], tuple) else True
+        return And(same_year_offset(back, a.yo), pos == n, layout)
+
+    c.returns(post)
